@@ -26,15 +26,16 @@ var cbDims = []dim{
 	{"idplace", []string{"query", "absent", "empty", "body", "both"}},
 	{"record", []string{"done", "pending", "absent"}},
 	{"binding", []string{"post", "redirect", "artifact", "empty"}},
-	{"acs", []string{"plain", "with-query", "empty", "special", "with-fragment"}},
+	{"acs", []string{"plain", "with-query", "empty", "special", "with-fragment", "upper-scheme", "non-ascii", "empty-fragment", "unparsable"}},
 	{"relay", []string{"rs-1", "", "meta", "long"}},
-	{"reqid", []string{"plain", "meta"}},
+	{"reqid", []string{"plain", "meta", "empty"}},
 	{"user", []string{"full", "minimal", "custom", "hostile", "missing"}},
 	{"entity", []string{"ok", "fail"}},
 	{"userinfo", []string{"ok", "fail"}},
-	{"respkey", []string{"ok", "fail", "nil", "nokey", "nocert", "emptycert"}},
+	{"respkey", []string{"ok", "fail", "nil", "nokey", "nocert", "emptycert", "mismatch"}},
 	{"sigalg", []string{"rsa-sha256", "rsa-sha1", "invalid"}},
 	{"lookup", []string{"ok", "fail"}},
+	{"timeformat", []string{"default", "rfc3339", "fixed-frac", "numeric-zone"}},
 }
 
 const metaString = "a&b<c>\"d'e é=%2B+ z"
@@ -74,6 +75,19 @@ func usersFor(label string) *User {
 			Custom: []CustomAttr{{Name: "n&<\"", Friendly: "f<", Format: "fmt\"&", Values: []string{hostileString, metaString}}}}
 	}
 	return nil
+}
+
+// cbTimeLayout: the layouts an integrator may configure with WithCustomTimeFormat ("" = the library's default)
+func cbTimeLayout(label string) string {
+	switch label {
+	case "rfc3339":
+		return time.RFC3339
+	case "fixed-frac":
+		return "2006-01-02T15:04:05.000Z"
+	case "numeric-zone":
+		return "2006-01-02T15:04:05.000000-07:00"
+	}
+	return ""
 }
 
 type CbRun struct {
@@ -117,6 +131,14 @@ func runCb(c Case) *CbRun {
 		rec.Acs = "https://sp.example.com/acs/%C3%A9path/it's;v=1,2"
 	case "with-fragment":
 		rec.Acs = "https://sp.example.com/acs?tenant=42#top"
+	case "upper-scheme":
+		rec.Acs = "HTTPS://sp.example.com/acs/post"
+	case "non-ascii":
+		rec.Acs = "https://sp.example.com/acs/é path/<x>"
+	case "empty-fragment":
+		rec.Acs = "https://sp.example.com/acs/post#"
+	case "unparsable":
+		rec.Acs = "127.0.0.1:8443/saml/acs" // net/url refuses it ("first path segment in URL cannot contain colon")
 	}
 	switch c["relay"] {
 	case "rs-1":
@@ -128,6 +150,9 @@ func runCb(c Case) *CbRun {
 	}
 	if c["reqid"] == "meta" {
 		rec.ReqID = "id&<\"'> 1"
+	}
+	if c["reqid"] == "empty" {
+		rec.ReqID = "" // a record that does not stem from an AuthnRequest with an ID
 	}
 	rec.IsDone = c["record"] == "done"
 	if c["record"] != "absent" {
@@ -160,8 +185,11 @@ func runCb(c Case) *CbRun {
 		st.RespKey.Certificate = nil
 	case "emptycert":
 		st.RespKey.Certificate = []byte{}
+	case "mismatch":
+		st.RespKey.Key = foreignKeys.Key // a private key that does not belong to the certificate
 	}
 	cfg := defaultIdpCfg()
+	cfg.TimeFormat = cbTimeLayout(c["timeformat"])
 	switch c["sigalg"] {
 	case "rsa-sha1":
 		cfg.SigAlg = algRSASHA1
@@ -269,6 +297,20 @@ func monC01(c *Ctx, r *CbRun) {
 
 // ---- C02 (callback slice)
 
+// tmplURLFiltered: html/template's urlFilter replaces the URL by "#ZgotmplZ" when the text before the first ':' (with
+// no '/' in it) is not http, https or mailto - stricter than what a browser takes as a scheme
+func tmplURLFiltered(u string) bool {
+	i := strings.IndexByte(u, ':')
+	if i < 0 || strings.ContainsRune(u[:i], '/') {
+		return false
+	}
+	switch strings.ToLower(u[:i]) {
+	case "http", "https", "mailto":
+		return false
+	}
+	return true
+}
+
 // redirectAddresses: loc is the consumer URL with the message parameters inserted as (or appended to) its query,
 // in front of its fragment if it has one.  net/http.Redirect percent-encodes non-ASCII bytes of the target.
 func redirectAddresses(loc, acs string) bool {
@@ -292,7 +334,7 @@ func monC02cb(c *Ctx, r *CbRun) {
 	site := "callbackHandleFunc"
 	switch d.Kind {
 	case "post":
-		if d.Target != htmlURLNormalize(r.Rec.Acs) && d.Target != r.Rec.Acs {
+		if d.Target != htmlURLNormalize(r.Rec.Acs) && d.Target != r.Rec.Acs && !(d.Target == "#ZgotmplZ" && tmplURLFiltered(r.Rec.Acs)) {
 			c.issue(Issue{Kind: "violation", What: "form action differs from the consumer URL persisted for the request", Site: site, Class: "post-target:acs=" + r.Case["acs"], Detail: r.detail()})
 		}
 		if r.Rec.Binding != provider.PostBinding {
@@ -421,7 +463,10 @@ func monC03(c *Ctx, r *CbRun) {
 		}
 	}
 	// validity window
-	layout := "2006-01-02T15:04:05.999999Z"
+	layout := cbTimeLayout(r.Case["timeformat"])
+	if layout == "" {
+		layout = "2006-01-02T15:04:05.999999Z"
+	}
 	ii, e1 := time.Parse(layout, m.IssueInstant)
 	noa, e2 := time.Parse(layout, m.NotOnOrAfter)
 	if e1 != nil || e2 != nil {
@@ -430,10 +475,14 @@ func monC03(c *Ctx, r *CbRun) {
 		if m.NotBefore != m.IssueInstant || m.AuthnInstant != m.IssueInstant || m.SCNotOnOrAft != m.NotOnOrAfter {
 			bad("NotBefore/AuthnInstant differ from IssueInstant", "window-equalities")
 		}
-		if ii.Before(r.Before.Add(-time.Millisecond).Truncate(time.Microsecond)) || ii.After(r.After) {
+		gran := map[string]time.Duration{"rfc3339": time.Second, "fixed-frac": time.Millisecond}[r.Case["timeformat"]]
+		if gran == 0 {
+			gran = time.Microsecond
+		}
+		if ii.Before(r.Before.Add(-time.Millisecond).Truncate(gran)) || ii.After(r.After) {
 			bad("IssueInstant outside the wall-clock bracket of the call", "issue-instant")
 		}
-		if noa.Sub(ii) != 5*time.Minute {
+		if noa.Sub(ii) != 5*time.Minute && !(r.Case["timeformat"] == "rfc3339" && noa.Sub(ii).Round(time.Second) == 5*time.Minute && noa.Nanosecond() == 0 && ii.Nanosecond() == 0) {
 			bad("NotOnOrAfter is not IssueInstant + lifetime", "lifetime")
 		}
 	}
